@@ -45,6 +45,7 @@ func setup(repo, tier string) *Prog {
 	p.sortAxioms = map[string]*Sort{}
 	p.copyAxioms = map[string]*Sort{}
 	p.permAxioms = map[string]*Sort{}
+	p.ghostSorts = map[string]*Sort{}
 	vd := os.Getenv("GOVC_VERIF")
 	if vd == "" {
 		vd = "/verif"
